@@ -201,7 +201,7 @@ func main() {
 		for _, w := range j.Inputs {
 			o.Results = append(o.Results, run(func() sm { return %s.NewSM() }, w, %v))
 		}
-		for t := -1; t < 300; t++ {
+		for t := -1; t < 1200; t++ {
 			o.Names[t] = %s.TokName(t)
 		}
 		res[%q] = o
